@@ -299,7 +299,7 @@ func init() {
 	core.Register(&core.Prop{
 		ID:    "C05",
 		Title: "Stacks are LIFO, queues FIFO, the circular buffer a bounded FIFO",
-		Cases: func(tier string) int { return tierN(tier, 40000, 800000) },
+		Cases: func(tier string) int { return tierN(tier, 40000, 4000000) },
 		Run:   runC05,
 		Rule: fmt.Sprintf("cases 0..%d: ring sweep, one case per (capacity, start offset) for capacities %v, each visiting every fill level 0..capacity and continuing randomly (quick runs capacities <= 17 fully and every 7th larger one); "+
 			"the other cases: random interleavings of Push/Pop/Peek or Enqueue/Dequeue/Peek and Clear with unique item ids on ArrayStack, LinkedListStack, ArrayQueue, LinkedListQueue, CircularBuffer, followed by a full drain. "+
